@@ -170,6 +170,9 @@ def check(repo: Repo, run: Run) -> None:
            line=mine[0].lineno if mine else None, nontrivial=bool(mine),
            witness="the same request twice on a dump that defines a string after its first use")
     run.floor("R6", "methods scanned for kept mutable defaults", n_m, 300)
+    take_over(run, "c04", "C04", repo, lambda o: o["rule"] == "K6" and o["construct"] == "domain selection", "R0",
+              "pairing domain of the helper class", "the trace-string records every request reads pair among themselves: if records "
+              "of other classes share their windows, a string is reassembled from different records with and without a class filter", 1)
     take_over(run, "c08", "C08", repo, lambda o: o["rule"] == "R6", "R0", "decoders do not count records of other classes",
               "the records of classes that were not requested are not in the window of a filtered run: the same call then "
               "renders differently with and without the filter", 1)
